@@ -467,6 +467,9 @@ func run(sc scenario) (body func(), check func(r *vrt.Result) []finding) {
 			if len(o.body) == e.bodyLen && el < e.thrDelay+lat {
 				add("throttle_delay_too_short:"+cls, "connection %d: response took %v of virtual time, the throttles require at least %v", i, el, e.thrDelay+lat)
 			}
+			if sc.Reconf == "rejected-before" && len(o.body) == e.bodyLen && el > lat+e.minDelay+e.thrDelay+time.Second {
+				add("rejected_config_took_effect:delay", "connection %d after a rejected configuration took %v of virtual time; the active configuration explains at most %v", i, el, lat+e.minDelay+e.thrDelay+time.Second)
+			}
 			if active == nil && el > time.Duration(sc.Latency)*time.Millisecond+time.Second {
 				add("non_matching_delayed", "connection %d to a non-matching URL took %v", i, el)
 			}
@@ -578,6 +581,16 @@ func scenarios(tier string) []scenario {
 			)
 		}
 	}
+	// several connections sharing a finite per-URL global bandwidth: delayed, never losing bytes
+	for _, n := range []int{300, 700, 2500} {
+		for _, bw := range []int64{1000, 250} {
+			out = append(out,
+				scenario{Name: "global-bw-seq", Shapes: []shape{{Regex: matchURL, MaxBW: bw}}, N: n, Match: true, Conns: 3},
+				scenario{Name: "global-bw-conc", Shapes: []shape{{Regex: matchURL, MaxBW: bw}}, N: n, Match: true, Conns: 2, Conc: true, Bound: 1},
+				scenario{Name: "global-bw-throttle", Shapes: []shape{{Regex: matchURL, MaxBW: bw, Throttles: []throttle{{Bytes: "100-", BW: 400}}}}, N: n, Match: true, Conns: 2},
+			)
+		}
+	}
 	// counts across connections
 	for _, cnt := range []int64{1, 2, -1} {
 		out = append(out, scenario{Name: "count-seq", Shapes: []shape{{Regex: matchURL, Closes: []closeAct{{Byte: 100, Count: cnt}}}}, N: 600, Match: true, Conns: 3})
@@ -620,6 +633,18 @@ func scenarios(tier string) []scenario {
 		`not json`,
 		`{"trafficshape":{"shapes":[{"url_regex":"` + matchURL + `","throttles":[null]}]}}`,
 		`{"trafficshape":{"shapes":[{"url_regex":"` + matchURL + `"},{"url_regex":"b","halts":[{"byte":1,"duration":1,"count":0}]}]}}`,
+	}
+	// rejected because of their shapes although the "default" section is valid: nothing of them may take effect
+	for _, shapes := range []string{
+		`[{"url_regex":"` + matchURL + `","throttles":[{"bytes":"0-100","bandwidth":10},{"bytes":"50-200","bandwidth":10}]}]`,
+		`[{"url_regex":"(unclosed"}]`,
+		`[{"url_regex":"` + matchURL + `","halts":[{"byte":1,"duration":10,"count":0}]}]`,
+	} {
+		bad = append(bad,
+			`{"trafficshape":{"default":{"latency":700},"shapes":`+shapes+`}}`,
+			`{"trafficshape":{"default":{"bandwidth":{"up":50,"down":50}},"shapes":`+shapes+`}}`,
+			`{"trafficshape":{"default":{"bandwidth":{"up":50,"down":50},"latency":900},"shapes":`+shapes+`}}`,
+		)
 	}
 	for _, b := range bad {
 		out = append(out, scenario{Name: "invalid-config", Shapes: base, N: 600, Match: true, Conns: 1, Reconf: "rejected-before", Reconf2: b})
@@ -758,7 +783,7 @@ func main() {
 	rep.Coverage["transitions"] = rep.Counter("points")
 	rep.Coverage["traces_validated_against_impl"] = rep.Counter("executions")
 	rep.Coverage["exhaustive"] = rep.Incomplete == ""
-	rep.Coverage["bounds"] = fmt.Sprintf("%d scenarios: close actions at offsets {0,1,n-1,n,n+1,5000,6000}+range start x sizes {0,1,600,4095,4096,4097,10000} x range starts {0,1,4096} x body chunkings; halts/throttles (single, adjacent, gap, max bandwidth), latency, non-matching URL; counts {1,2,-1} over sequential and concurrent connections; reconfiguration after accept / in flight; 26 invalid configurations; default schedule, <=1 (quick) / <=2 (thorough) deviations for concurrent scenarios", len(scen))
+	rep.Coverage["bounds"] = fmt.Sprintf("%d scenarios: close actions at offsets {0,1,n-1,n,n+1,5000,6000}+range start x sizes {0,1,600,4095,4096,4097,10000} x range starts {0,1,4096} x body chunkings; halts/throttles (single, adjacent, gap, max bandwidth), latency, non-matching URL; counts {1,2,-1} over sequential and concurrent connections; reconfiguration after accept / in flight; 35 invalid configurations (incl. valid defaults with invalid shapes); shared global bandwidth over sequential/concurrent connections; default schedule, <=1 (quick) / <=2 (thorough) deviations for concurrent scenarios", len(scen))
 	rep.Coverage["explanation"] = "each execution runs the real proxy.go + trafficshape over simnet with virtual time; bucket spin loops are parked until the epoch changes (a drain tick)"
 	rep.Assumptions = []string{"virtual time only advances at quiescence; ticker phase is fixed by bucket creation time", "Content-Length framing only"}
 	rep.Finish()
